@@ -139,111 +139,44 @@ def _integrated(repo, s, e, at_stmt, depth):
     return False, f"_peak argument {unparse(e)[:60]} is not the direction-integrated spectrum"
 
 
+def _resolve_all(fi):
+    """The function as ONE expression: a straight-line body of simple assignments followed by a return, with every local substituted."""
+    from ..inline import _clone
+    env = {}
+
+    class S(ast.NodeTransformer):
+        def visit_Name(self, n):
+            if isinstance(n.ctx, ast.Load) and n.id in env:
+                return _clone(env[n.id])
+            return n
+    for s in fi.node.body:
+        if isinstance(s, ast.Expr) and isinstance(s.value, ast.Constant):
+            continue
+        if isinstance(s, ast.Pass):
+            continue
+        if isinstance(s, ast.Assign) and len(s.targets) == 1 and isinstance(s.targets[0], ast.Name):
+            v = S().visit(_clone(s.value))
+            for y in ast.walk(v):
+                if hasattr(y, "lineno"):
+                    y.lineno = s.lineno
+            env[s.targets[0].id] = v
+        elif isinstance(s, ast.Return) and s.value is not None:
+            return S().visit(_clone(s.value)), s
+        else:
+            raise AnalysisError(f"{fi.short}: unexpected statement {type(s).__name__} (formulation changed)")
+    raise AnalysisError(f"{fi.short}: no return")
+
+
 def peak_definition(repo, rep):
-    """R-C02-2: strict interior maxima with self-padding, mask conjunction, 0 when there is none."""
+    """R-C02-2: strict interior maxima with self-padding, mask conjunction, 0 when there is none.  Decided on the function read as one
+    expression (every local substituted), so that naming / folding of intermediate masks does not matter."""
     fi = repo.func("wavespectra.specarray.SpecArray._peak")
     arr = fi.params[1]
-    body = [s for s in fi.node.body if not (isinstance(s, ast.Expr) and isinstance(s.value, ast.Constant))]
-    assigns = {}
-    ret = None
-    for s in body:
-        if isinstance(s, ast.Assign) and len(s.targets) == 1 and isinstance(s.targets[0], ast.Name):
-            assigns[s.targets[0].id] = s
-        elif isinstance(s, ast.Return):
-            ret = s
-        else:
-            raise AnalysisError(f"_peak: unexpected statement {type(s).__name__} (formulation changed)")
-    if ret is None:
-        raise AnalysisError("_peak: no return")
     freq = repo.attrs.FREQNAME
+    rv, ret = _resolve_all(fi)
 
     def is_freq(e):
         return e is not None and repo.const(fi.module, e) == freq
-
-    # --- the two difference masks
-    masks = {}
-    for name, st in assigns.items():
-        v = st.value
-        if isinstance(v, ast.Compare) and len(v.ops) == 1:
-            masks[name] = (st, v)
-    sides = {}
-    for name, (st, cmp_) in masks.items():
-        left, op, right = cmp_.left, cmp_.ops[0], cmp_.comparators[0]
-        zero_right = isinstance(right, ast.Constant) and right.value == 0
-        zero_left = isinstance(left, ast.Constant) and left.value == 0
-        if not (zero_right or zero_left):
-            raise AnalysisError(f"_peak: mask {name} is not a comparison with 0")
-        d = left if zero_right else right
-        if zero_left:
-            op = {ast.Gt: ast.Lt, ast.Lt: ast.Gt, ast.GtE: ast.LtE, ast.LtE: ast.GtE}.get(type(op), type(op))()
-        # d = <padded>.diff(freq, n=1, label=...)
-        if not (isinstance(d, ast.Call) and isinstance(d.func, ast.Attribute) and d.func.attr == "diff"):
-            raise AnalysisError(f"_peak: mask {name} is not built from .diff()")
-        label = kwarg(d, "label")
-        lab = repo.const(fi.module, label) if label is not None else "upper"
-        nk = kwarg(d, "n")
-        if nk is not None and repo.const(fi.module, nk) != 1:
-            rep.fail("R-C02-2", fi.file, d.lineno, fi.qualname, unparse(d)[:100], "difference order must be 1 (adjacent bins)")
-        dim_ok = (d.args and is_freq(d.args[0])) or is_freq(kwarg(d, "dim"))
-        if not dim_ok:
-            rep.fail("R-C02-2", fi.file, d.lineno, fi.qualname, unparse(d)[:100], "the difference must be taken along freq")
-        padded = d.func.value
-        pad = _padding(repo, fi, padded, arr, freq)
-        sides[name] = {"stmt": st, "op": op, "label": lab, "pad": pad, "cmp": cmp_}
-    if len(sides) != 2:
-        raise AnalysisError(f"_peak: expected two difference masks, found {len(sides)}")
-    fwd = [k for k, v in sides.items() if v["pad"][0] == "front"]
-    bwd = [k for k, v in sides.items() if v["pad"][0] == "back"]
-    for k, v in sides.items():
-        st = v["stmt"]
-        side, own, detail = v["pad"]
-        txt = unparse(st)[:150]
-        if not own:
-            rep.fail("R-C02-2", fi.file, st.lineno, fi.qualname, txt,
-                     f"the {side} padding is {detail}, not the array's own end element: the end bin becomes a strict "
-                     "'interior' maximum whenever the spectrum is still rising/falling there, and ipeak-1 / ipeak+1 leave the array")
-            continue
-        want_label = "upper" if side == "front" else "lower"
-        if v["label"] != want_label:
-            rep.fail("R-C02-2", fi.file, st.lineno, fi.qualname, txt,
-                     f"diff label '{v['label']}' with {side} padding shifts the mask by one bin (needs label='{want_label}')")
-            continue
-        want_op = ast.Gt if side == "front" else ast.Lt
-        if not isinstance(v["op"], want_op):
-            rep.fail("R-C02-2", fi.file, st.lineno, fi.qualname, txt,
-                     f"the {'rising' if side == 'front' else 'falling'}-side test must be strict "
-                     f"({'> 0' if side == 'front' else '< 0'}): with a non-strict or reversed comparison flat tops and "
-                     "boundary bins count as peaks")
-            continue
-        rep.ok("R-C02-2", f"{fi.file}:{st.lineno} _peak", txt, f"{side} padding repeats own end element, label={want_label}, strict comparison")
-    if len(fwd) != 1 or len(bwd) != 1:
-        rep.fail("R-C02-2", fi.file, fi.node.lineno, fi.qualname, "fwd/bwd masks", "need exactly one rising-side and one falling-side mask")
-        return
-    # --- conjunction
-    conj = None
-    for name, st in assigns.items():
-        v = st.value
-        names = {n.id for n in ast.walk(v) if isinstance(n, ast.Name)}
-        if {fwd[0], bwd[0]} <= names and name not in sides and not any(
-                isinstance(c, ast.Call) and isinstance(c.func, ast.Attribute) and c.func.attr in ("argmax", "where") for c in ast.walk(v)):
-            conj = (name, st)
-    if conj is None:
-        # may be inlined in the return
-        conj_expr = None
-    else:
-        v = conj[1].value
-        ok = (isinstance(v, ast.Call) and call_name(v) in ("np.logical_and", "xr.ufuncs.logical_and", "numpy.logical_and")) or \
-             (isinstance(v, ast.BinOp) and isinstance(v.op, ast.BitAnd))
-        if not ok:
-            rep.fail("R-C02-2", fi.file, conj[1].lineno, fi.qualname, unparse(conj[1])[:120],
-                     "a peak needs BOTH neighbour tests (conjunction); any other combination admits non-peaks")
-        else:
-            rep.ok("R-C02-2", f"{fi.file}:{conj[1].lineno} _peak", unparse(conj[1])[:100], "conjunction of both strict tests")
-    # --- return: arr.where(ispeak, 0).argmax(dim=freq)   (possibly through a temporary)
-    from ..astutil import resolve
-    rv = ret.value
-    if isinstance(rv, ast.Name) and rv.id in assigns and rv.id not in sides and (conj is None or rv.id != conj[0]):
-        rv = assigns[rv.id].value
     r, _ = _strip_casts(rv)
     if not (isinstance(r, ast.Call) and isinstance(r.func, ast.Attribute) and r.func.attr == "argmax"):
         raise AnalysisError("_peak: return is not an argmax")
@@ -255,14 +188,79 @@ def peak_definition(repo, rep):
     base = w.func.value
     other = w.args[1] if len(w.args) > 1 else kwarg(w, "other")
     maskarg = w.args[0] if w.args else kwarg(w, "cond")
-    mnames = {n.id for n in ast.walk(maskarg) if isinstance(n, ast.Name)} if maskarg is not None else set()
+    if maskarg is None:
+        raise AnalysisError("_peak: where() without a mask")
+    # --- the mask: conjunction of exactly two comparisons
+    m = maskarg
+    conj_ok = (isinstance(m, ast.Call) and call_name(m) in ("np.logical_and", "xr.ufuncs.logical_and", "numpy.logical_and") and len(m.args) == 2) or \
+        (isinstance(m, ast.BinOp) and isinstance(m.op, ast.BitAnd))
+    cmps = []
+    if conj_ok:
+        parts = m.args if isinstance(m, ast.Call) else [m.left, m.right]
+        cmps = [p_ for p_ in parts if isinstance(p_, ast.Compare) and len(p_.ops) == 1]
+    if not conj_ok or len(cmps) != 2:
+        found = [c for c in ast.walk(m) if isinstance(c, ast.Compare)]
+        if len(found) == 2 and not conj_ok:
+            rep.fail("R-C02-2", fi.file, getattr(m, "lineno", ret.lineno), fi.qualname, unparse(m)[:120],
+                     "a peak needs BOTH neighbour tests (conjunction); any other combination admits non-peaks")
+            return
+        raise AnalysisError(f"_peak: expected two difference masks, found {len(found)}")
+    rep.ok("R-C02-2", f"{fi.file}:{getattr(m, 'lineno', ret.lineno)} _peak", unparse(m)[:100], "conjunction of both strict tests")
+    sides = {}
+    for i_, cmp_ in enumerate(cmps):
+        name = f"mask{i_ + 1}"
+        left, op, right = cmp_.left, cmp_.ops[0], cmp_.comparators[0]
+        zero_right = isinstance(right, ast.Constant) and right.value == 0
+        zero_left = isinstance(left, ast.Constant) and left.value == 0
+        if not (zero_right or zero_left):
+            raise AnalysisError(f"_peak: mask {unparse(cmp_)[:60]} is not a comparison with 0")
+        d = left if zero_right else right
+        if zero_left:
+            op = {ast.Gt: ast.Lt, ast.Lt: ast.Gt, ast.GtE: ast.LtE, ast.LtE: ast.GtE}.get(type(op), type(op))()
+        if not (isinstance(d, ast.Call) and isinstance(d.func, ast.Attribute) and d.func.attr == "diff"):
+            raise AnalysisError(f"_peak: mask {unparse(cmp_)[:60]} is not built from .diff()")
+        label = kwarg(d, "label")
+        lab = repo.const(fi.module, label) if label is not None else "upper"
+        nk = kwarg(d, "n")
+        if nk is not None and repo.const(fi.module, nk) != 1:
+            rep.fail("R-C02-2", fi.file, d.lineno, fi.qualname, unparse(d)[:100], "difference order must be 1 (adjacent bins)")
+        dim_ok = (d.args and is_freq(d.args[0])) or is_freq(kwarg(d, "dim"))
+        if not dim_ok:
+            rep.fail("R-C02-2", fi.file, d.lineno, fi.qualname, unparse(d)[:100], "the difference must be taken along freq")
+        pad = _padding(repo, fi, d.func.value, arr, freq)
+        sides[name] = {"op": op, "label": lab, "pad": pad, "cmp": cmp_}
+    fwd = [k for k, v in sides.items() if v["pad"][0] == "front"]
+    bwd = [k for k, v in sides.items() if v["pad"][0] == "back"]
+    for k, v in sides.items():
+        side, own, detail = v["pad"]
+        txt = unparse(v["cmp"])[:150]
+        ln = getattr(v["cmp"], "lineno", ret.lineno)
+        if not own:
+            rep.fail("R-C02-2", fi.file, ln, fi.qualname, txt,
+                     f"the {side} padding is {detail}, not the array's own end element: the end bin becomes a strict "
+                     "'interior' maximum whenever the spectrum is still rising/falling there, and ipeak-1 / ipeak+1 leave the array")
+            continue
+        want_label = "upper" if side == "front" else "lower"
+        if v["label"] != want_label:
+            rep.fail("R-C02-2", fi.file, ln, fi.qualname, txt,
+                     f"diff label '{v['label']}' with {side} padding shifts the mask by one bin (needs label='{want_label}')")
+            continue
+        want_op = ast.Gt if side == "front" else ast.Lt
+        if not isinstance(v["op"], want_op):
+            rep.fail("R-C02-2", fi.file, ln, fi.qualname, txt,
+                     f"the {'rising' if side == 'front' else 'falling'}-side test must be strict "
+                     f"({'> 0' if side == 'front' else '< 0'}): with a non-strict or reversed comparison flat tops and "
+                     "boundary bins count as peaks")
+            continue
+        rep.ok("R-C02-2", f"{fi.file}:{ln} _peak", txt, f"{side} padding repeats own end element, label={want_label}, strict comparison")
+    if len(fwd) != 1 or len(bwd) != 1:
+        rep.fail("R-C02-2", fi.file, fi.node.lineno, fi.qualname, "fwd/bwd masks", "need exactly one rising-side and one falling-side mask")
+        return
     if not (isinstance(base, ast.Name) and base.id == arr):
         rep.fail("R-C02-2", fi.file, ret.lineno, fi.qualname, unparse(ret)[:120], "the masked array must be the spectrum itself")
     elif other is None or repo.const(fi.module, other) != 0:
         rep.fail("R-C02-2", fi.file, ret.lineno, fi.qualname, unparse(ret)[:120],
                  "non-peak bins must be replaced by 0 so that 'no interior maximum' yields index 0 (the NaN sentinel)")
-    elif conj is not None and conj[0] not in mnames:
-        rep.fail("R-C02-2", fi.file, ret.lineno, fi.qualname, unparse(ret)[:120], "the mask applied is not the conjunction of both tests")
     else:
         rep.ok("R-C02-2", f"{fi.file}:{ret.lineno} _peak", unparse(ret)[:100], "largest masked value along freq; 0 when no interior strict maximum")
 
